@@ -23,6 +23,10 @@ pub fn pool() -> Vec<Value> {
         Value::Int(42),
         Value::Int(-9007199254740992),
         Value::Int(9007199254740992),
+        Value::Int(9007199254740993),
+        Value::Int(1152921504606846976),
+        Value::Int(1152921504606846977),
+        Value::Int(i64::MAX - 1),
         Value::Int(2147483648),
         Value::Int(i64::MAX),
         Value::Int(i64::MIN),
